@@ -207,7 +207,7 @@ pub fn run(tier: Tier, seed: u64) -> i32 {
         run.random("random-dense", tier.pick(250_000, 8_000_000), 600, |b| case_profile(b, &Profile::dense()));
     }
     if tier == Tier::Thorough && !run.failed() {
-        run.fuzz("libfuzzer", 1_500_000, 8, 600, fuzz_case);
+        run.fuzz("libfuzzer", 60_000, 8, 600, fuzz_case);
     }
     run.finish()
 }
